@@ -1,6 +1,8 @@
 """C04 - deterministic simulation solves the model's rate equations."""
 import math
 
+import warnings
+
 import numpy as np
 
 from common import driver_batch, f2b, b2f, relerr
@@ -123,6 +125,71 @@ def pulse_with_hmax(ctx):
         ctx.count("pulse_with_hmax")
 
 
+def tolerance_keywords(ctx):
+    """relative error control on a state that is small in absolute terms: concentrations around 1e-6 simulated with the
+    keywords rtol=1e-6, atol=1e-12 stay within 50 x (rtol |x| + atol) of the closed form expm(A t) x0."""
+    from bioscrape.simulator import py_simulate_model
+    from scipy.linalg import expm
+    spec = {"species": ["A", "B", "C"], "reactions": [
+        {"reactants": ["A"], "products": ["B"], "prop": {"type": "massaction", "k": "k0"}},
+        {"reactants": ["B"], "products": ["C"], "prop": {"type": "massaction", "k": "k1"}},
+        {"reactants": ["C"], "products": ["A"], "prop": {"type": "massaction", "k": "k2"}},
+        {"reactants": ["B"], "products": [], "prop": {"type": "massaction", "k": "k3"}}],
+        "params": {"k0": 1.0, "k1": 0.7, "k2": 0.4, "k3": 0.05}, "ic": {"A": 3e-6, "B": 1e-6, "C": 0.0}}
+    k = spec["params"]
+    for T in (np.linspace(0, 20.0, 41), np.array([0.0, 0.3, 1.0, 2.5, 7.0, 20.0])):
+        for rtol, atol in ((1e-6, 1e-12), (1e-9, 1e-9)):
+            case = {"spec": spec, "times": T.tolist(), "rtol": rtol, "atol": atol}
+            ctx.begin_case(case)
+            M = build_model(spec)
+            sl = M.get_species_list()
+            ix = {s_: i for i, s_ in enumerate(sl)}
+            Amat = np.zeros((3, 3))
+            for src, dst, kk in (("A", "B", k["k0"]), ("B", "C", k["k1"]), ("C", "A", k["k2"]), ("B", None, k["k3"])):
+                Amat[ix[src], ix[src]] -= kk
+                if dst is not None:
+                    Amat[ix[dst], ix[src]] += kk
+            x0 = np.array([float(spec["ic"][s_]) for s_ in sl])
+            ref = np.array([expm(Amat * t) @ x0 for t in T])
+            rows = np.array(py_simulate_model(T.copy(), Model=M, stochastic=False, return_dataframe=False, rtol=rtol, atol=atol).py_get_result())
+            ctx.evaluated()
+            allowed = 50 * (rtol * np.abs(ref) + atol)
+            if rows.shape != ref.shape or np.any(np.isnan(rows)) or np.any(np.abs(rows - ref) > allowed):
+                worst = float(np.nanmax(np.abs(rows - ref) / (rtol * np.abs(ref) + atol))) if rows.shape == ref.shape else float("inf")
+                ctx.violation("det/accuracy/tolerance-keywords", "rtol=%g atol=%g on concentrations around 1e-6: error up to %.3g x (rtol |x| + atol), 50 allowed" % (rtol, atol, worst), case)
+                return
+            ctx.count("tolerance_keywords")
+
+
+def long_intervals(ctx):
+    """requested time points far apart: a fast oscillation (closed orbit, 40 rad per time unit) asked for at three points
+    spanning thousands of periods.  The integrator needs tens to hundreds of thousands of internal steps per interval,
+    inside the simulator's budget (mxstep = 500000): the rows are numbers, on the orbit, near the closed form."""
+    from bioscrape.simulator import py_simulate_model
+    w, c = 40.0, 10.0
+    spec = {"species": ["X", "Y"], "reactions": [
+        {"reactants": [], "products": ["X"], "prop": {"type": "general", "rate": "w*c"}},
+        {"reactants": ["X"], "products": [], "prop": {"type": "general", "rate": "w*Y"}},
+        {"reactants": [], "products": ["Y"], "prop": {"type": "general", "rate": "w*X"}},
+        {"reactants": ["Y"], "products": [], "prop": {"type": "general", "rate": "w*c"}}],
+        "params": {"w": w, "c": c}, "ic": {"X": 15.0, "Y": 10.0}}
+    for span in (10.0, 150.0, 300.0):
+        T = np.linspace(0, 2 * span, 3)
+        case = {"spec": spec, "times": T.tolist()}
+        ctx.begin_case(case)
+        M = build_model(spec)
+        sl = M.get_species_list()
+        with warnings.catch_warnings():
+            warnings.simplefilter("ignore")
+            rows = np.array(py_simulate_model(T.copy(), Model=M, stochastic=False, return_dataframe=False).py_get_result())
+        ctx.evaluated()
+        ref = np.array([[c + 5 * np.cos(w * t) if s_ == "X" else c + 5 * np.sin(w * t) for s_ in sl] for t in T])
+        if rows.shape != ref.shape or np.any(np.isnan(rows)) or np.max(np.abs(rows - ref)) > 0.05:
+            ctx.violation("det/accuracy/long-intervals", "oscillator asked for at t = %s: rows %s, closed form %s" % (T.tolist(), rows.tolist(), ref.tolist()), case)
+            return
+        ctx.count("long_interval_runs")
+
+
 CONSERVATION_TOL = 1e-9     # relative; LSODA preserves linear invariants to rounding (largest drift seen on the unchanged tree: 1.3e-12 over 1200 laws)
 CONS_SEEN = [0.0]
 
@@ -242,6 +309,8 @@ def run(ctx):
     for spec in FIXED:
         one(ctx, ctx.rng, linear=False, spec=spec)
     pulse_with_hmax(ctx)
+    tolerance_keywords(ctx)
+    long_intervals(ctx)
     for i in range(n):
         one(ctx, ctx.rng, linear=(i % 2 == 0))
     ctx.count("largest_relative_drift_of_a_conserved_combination_x1e15", int(CONS_SEEN[0] * 1e15))
